@@ -166,7 +166,7 @@ def run_op_case(ctx, i):
     ctx.check(np.array_equal(out3, out4), "garbage", which="no_blurring", **W)
 
     # (iii) mapping matrices of every kind
-    for mk in ("binary", "fractional", "tiny", "signed", "signed_sparse"):
+    for mk in ("binary", "fractional", "tiny", "signed", "signed_sparse", "cancelling"):
         M, _ = gen.mapping_matrix(rng, n, int(rng.integers(1, 5)), kind=mk)
         got = _np(conv.convolve_mapping_matrix(mapping_matrix=M.copy()))
         exp = C_mm @ M
